@@ -794,6 +794,9 @@ static mut SAVED_C: Option<Weak<Counted>> = None;
 pub(crate) fn weak_new_cyclic_closure_panics() {
     #[cfg(feature = "auto-collect")]
     let _ = crate::config::config(|c| c.set_auto_collect(false));
+    // called from anywhere new_cyclic may be called: outside a collection, or from a finalizer / destructor /
+    // cleaning action (of a plain drop or of a running collection) -- every flag combination except tracing
+    let fl = any_flags_not_tracing();
     let b0 = state(|s| sp::snap(s)).bytes;
     let poisoned: Cc<Counted> = Cc::new_cyclic(|w: &Weak<Counted>| {
         unsafe { SAVED_C = Some(w.clone()) };
@@ -806,8 +809,9 @@ pub(crate) fn weak_new_cyclic_closure_panics() {
     kani::assert(state(|s| sp::snap(s)).bytes == b0, "Cc::new_cyclic::unwind::all_box_memory_released_and_accounted");
     {
         let sn = state(|s| sp::snap(s));
-        kani::assert(pc_view().1 == 0 && !sn.collecting && !sn.finalizing && !sn.dropping, "Cc::new_cyclic::unwind::collector_idle");
+        kani::assert(pc_view().1 == 0 && (sn.collecting, sn.finalizing, sn.dropping) == fl, "Cc::new_cyclic::unwind::collector_flags_as_before");
     }
+    state(|s| sp::set_flags(s, false, false, false));
     let saved = unsafe { SAVED_C.take().unwrap() };
     kani::assert(saved.strong_count() == 0 && saved.upgrade().is_none(), "Cc::new_cyclic::unwind::saved_clones_stay_dead");
     kani::assert(saved.weak_count() == 1, "Weak::weak_count::post::reads_record_count");
